@@ -88,11 +88,26 @@ func VpC01_Decode(a []int) {
 	e, n := a[0], a[1]
 	b := vpBytes(n)
 	if e == 8 && n >= 16 {
-		// bounded part of the TWCC claim: packet status count <= 8
-		vpAssume(b[14] == 0 && b[15] <= 8)
+		// bounded part of the TWCC claim: packet status count <= a[2] (default 8)
+		maxc := 8
+		if len(a) > 2 {
+			maxc = a[2]
+		}
+		vpAssume(int(b[14])<<8|int(b[15]) <= maxc)
 	}
 	err := vpDecodeEntry(e, b)
 	vpAssert("C01.alloc-bounded", vpAllocBytes() <= 4<<20+64*n)
+	vpObserveBool("err", err != nil)
+	vpReach("end")
+}
+
+// VpC01_TWCCTyped: TransportLayerCC.Unmarshal on packets whose chunk kinds are
+// fixed per case and whose chunk payload bits, header fields and delta octets
+// are symbolic (arguments as VpC13_Typed).
+func VpC01_TWCCTyped(a []int) {
+	b, _ := vpC13TypedPacket(a)
+	err := new(TransportLayerCC).Unmarshal(b)
+	vpAssert("C01.alloc-bounded", vpAllocBytes() <= 4<<20+64*len(b))
 	vpObserveBool("err", err != nil)
 	vpReach("end")
 }
